@@ -1,10 +1,157 @@
 /-
-  Drive/Mapper.lean — driver suite `mapper` (stub; to be implemented).
+  Drive/Mapper.lean — driver suite `mapper`: aggregation, serialization, the specification document,
+  deserialization of the serialized document (and of an extra document), the round-trip hypotheses
+  and the wrapper validation, all on the ASCII string functions.
+
+  Wire: mapper = "lower" | "camel" | {"d": [[key, val], …]}, val = "str" | {"dns": true} | {"d": […]};
+  class attr = null | mapper | {"list": [mapper…]}; class = {"hier": [attr…], "fields": [fld…]};
+  fld = {"n", "opt"} | {"n", "opt", "shape": "one"|"many", "cls": class};
+  JSON tree = null | int | "str" | [tree…] | {"o": [[key, tree], …]}.
 -/
-import TypedpyModel.Drive.Wire
+import Lean.Data.Json
+import TypedpyModel.Spec.Mappers
 namespace Typedpy.Drive.Mapper
 open Lean (Json)
+open Typedpy.Mappers
 
-def run (_j : Json) : Except String Json := .error "suite mapper not implemented"
+def mkeyOfString (s : String) : MKey :=
+  let suf := "._mapper"
+  if s.endsWith suf then .nest ((s.toList.take (s.length - suf.length)) |> String.ofList) else .fld s
+
+partial def mdictOfJson (j : Json) : Except String MDict := do
+  let arr ← j.getArr?
+  arr.toList.mapM fun e => do
+    let p ← e.getArr?
+    if p.size != 2 then throw "mapper entry"
+    let k ← p[0]!.getStr?
+    let v ← match p[1]! with
+      | .str s => pure (MV.key s)
+      | x =>
+        if let .ok _ := x.getObjVal? "dns" then pure MV.dns
+        else if let .ok d := x.getObjVal? "d" then do pure (MV.sub (← mdictOfJson d))
+        else throw s!"mapper value {x.compress}"
+    pure (mkeyOfString k, v)
+
+def mapperOfJson (j : Json) : Except String Mapper :=
+  match j with
+  | .str "lower" => pure .lower
+  | .str "camel" => pure .camel
+  | x => do
+    let d ← x.getObjVal? "d"
+    pure (.dict (← mdictOfJson d))
+
+def attrOfJson (j : Json) : Except String (Option ClassAttr) :=
+  match j with
+  | .null => pure none
+  | x =>
+    if let .ok l := x.getObjVal? "list" then do
+      let ms ← (← l.getArr?).toList.mapM mapperOfJson
+      pure (some (.many ms))
+    else do pure (some (.single (← mapperOfJson x)))
+
+mutual
+partial def clsOfJson (j : Json) : Except String Cls := do
+  let hier ← (← (← j.getObjVal? "hier").getArr?).toList.mapM attrOfJson
+  let fields ← (← (← j.getObjVal? "fields").getArr?).toList.mapM fldOfJson
+  pure ⟨collect none hier, fields⟩
+partial def fldOfJson (j : Json) : Except String Fld := do
+  let n ← (← j.getObjVal? "n").getStr?
+  let opt ← (← j.getObjVal? "opt").getBool?
+  match j.getObjVal? "cls" with
+  | .ok cj => do
+    let c ← clsOfJson cj
+    let sh ← (← j.getObjVal? "shape").getStr?
+    pure (.nested n opt (if sh == "one" then .one else .many) c.own c.fields)
+  | .error _ => pure (.scalar n opt)
+end
+
+partial def treeOfJson (j : Json) : Except String J :=
+  match j with
+  | .null => pure .null
+  | .str s => pure (.str s)
+  | .num _ => do pure (.int (← j.getInt?))
+  | .arr xs => do pure (.arr (← xs.toList.mapM treeOfJson))
+  | x => do
+    let o ← x.getObjVal? "o"
+    let kvs ← (← o.getArr?).toList.mapM fun e => do
+      let p ← e.getArr?
+      if p.size != 2 then throw "object entry"
+      pure ((← p[0]!.getStr?), (← treeOfJson p[1]!))
+    pure (.obj kvs)
+
+partial def treeToJson : J → Json
+  | .null => .null
+  | .int i => Json.num (Lean.JsonNumber.fromInt i)
+  | .str s => .str s
+  | .arr xs => Json.arr (xs.map treeToJson).toArray
+  | .obj kvs => Json.mkObj [("o", Json.arr (kvs.map fun (k, v) => Json.arr #[.str k, treeToJson v]).toArray)]
+
+partial def mvToJson : MV → Json
+  | .key s => .str s
+  | .dns => Json.mkObj [("dns", .bool true)]
+  | .sub d => Json.mkObj [("d", Json.arr (d.map fun (k, v) =>
+      Json.arr #[.str (match k with | .fld n => n | .nest n => n ++ "._mapper"), mvToJson v]).toArray)]
+
+def resToJson (r : DR J) : Json :=
+  match r with
+  | .ok x => Json.mkObj [("ok", treeToJson x)]
+  | .error .typeErr => Json.mkObj [("err", .str "TypeError")]
+  | .error .valueErr => Json.mkObj [("err", .str "ValueError")]
+
+def optField (j : Json) (k : String) : Option Json :=
+  match j.getObjVal? k with
+  | .ok .null => none
+  | .ok x => some x
+  | .error _ => none
+
+def run (j : Json) : Except String Json := do
+  let S := asciiFns
+  let c ← clsOfJson (← j.getObjVal? "cls")
+  let camel ← (← j.getObjVal? "camel").getBool?
+  let strict ← (← j.getObjVal? "strict").getBool?
+  let ov ← match optField j "explicit" with
+    | none => pure none
+    | some x => do pure (some (← mdictOfJson x))
+  let ovKeys ← match optField j "explicit" with
+    | none => pure []
+    | some x => (← x.getArr?).toList.mapM fun e => do pure (← (← e.getArr?)[0]!.getStr?)
+  let x ← treeOfJson (← j.getObjVal? "inst")
+  let ms := aggregate S true c.own c.fields ov camel
+  let md := aggregate S false c.own c.fields ov camel
+  let doc := ser S camel ms x
+  let spec := specSer S (effList c.own ov camel) c.fields x
+  let xc ← treeOfJson (← j.getObjVal? "inst_canon")
+  let des := deser S camel c ov strict doc
+  let kvs := match xc with | .obj kvs => kvs | _ => []
+  let base := [
+    ("ser", treeToJson doc),
+    ("spec", treeToJson spec),
+    ("keysLaw", Json.bool (keysLaw S camel ms x doc)),
+    ("deser", resToJson des),
+    ("aggS", mvToJson (.sub ms)),
+    ("aggD", mvToJson (.sub md)),
+    ("wrapper", Json.bool (wrapperOk S (c.fields.map Fld.name) ovKeys)),
+    ("hyp", Json.mkObj [
+      ("rt", Json.bool (rtCls S camel (levelOK S) c ms ov strict xc)),
+      ("rtNoCap", Json.bool (rtCls S camel (fun a b _ k => levelOK S a b true k) c ms ov strict xc)),
+      ("dom", Json.bool (rtCls S camel (levelDom S) c ms ov strict xc)),
+      ("keys", Json.bool (rtCls S camel levelKeys c ms ov strict xc)),
+      ("sync", Json.bool (syncOK ms md kvs)),
+      ("nodot", Json.bool (noDotOK S ms kvs)),
+      ("inj", Json.bool (injOK ms kvs)),
+      ("absent", Json.bool (absentKeyOK ms kvs)),
+      ("nocapture", Json.bool (noCaptureOK ms strict kvs)),
+      ("level", Json.bool (levelOK S ms md strict kvs))])]
+  let extra ← match optField j "doc2" with
+    | none => pure []
+    | some d => do
+      let d2 ← treeOfJson d
+      pure [("deser2", resToJson (deser S camel c ov strict d2))]
+  let implLaw ← match optField j "impl_doc" with
+    | none => pure []
+    | some d => do
+      let d ← treeOfJson d
+      pure [("implDeser", resToJson (deser S camel c ov strict d))]
+  pure (Json.mkObj (base ++ extra ++ implLaw))
 
 end Typedpy.Drive.Mapper
